@@ -165,7 +165,15 @@ class PEngine(HEngine):
         return {}
 
     def run(self, startObservable=None):
+        # run()/restart() return before anything is launched (the real pipeline waits ENGINE_LAUNCH_DELAY_SECONDS on another
+        # thread): the launch stages run when the harness lets the launch happen - or never, if a kill lands in that window
         HEngine.run(self, startObservable)
+        self._launch_pending = True
+
+    def launch_now(self):
+        if not getattr(self, '_launch_pending', False):
+            return
+        self._launch_pending = False
         pipe = lifted_pipeline()
         st = pipe['make'](self)
         em = None
@@ -174,6 +182,12 @@ class PEngine(HEngine):
         if self._taskLaunched is not None and em.get('process') is not None:
             self._taskLaunched -= datetime.timedelta(seconds=1)     # a non-zero run time for the performance columns
         self._emission = em
+
+    def killed_before_launch(self):
+        # the launch pipeline ends in HandleTaskObservableException -> _setExitReason(Killed); engine.process is whatever
+        # run()/restart() left behind
+        self._launch_pending = False
+        self._setExitReason('Killed')
 
     def task_exits(self, reason=None):
         """The launched task exits with `reason` (or the launch itself had failed: reason comes from the emission)."""
@@ -246,25 +260,24 @@ def body_engine(L, reasons=REASONS, narrow=False, launch_failures=False):
             for step in range(L):
                 if not eng.isAlive():
                     break
-                if launches and launches[-1] != 'task':
-                    # the submission itself failed: LaunchTask reported SubmissionFailed, there is no task to wait for
-                    r = 'SubmissionFailed'
-                    tracker.new_step()
-                    got = eng.task_exits()
-                    ctx.check(got == 'SubmissionFailed', 'a launch that raises is reported as SubmissionFailed', (launches, got))
-                    ctx.witness('submission_failed_at_launch')
+                tracker.new_step()
+                if ctx.choice('window%d' % step, ['launch', 'Killed-before-launch']) == 'Killed-before-launch':
+                    # kill() arrives after run()/restart() returned but before the task is launched
+                    r = 'Killed'
+                    eng.killed_before_launch()
+                    ctx.witness('killed_in_the_launch_window')
                 else:
-                    r = ctx.choice('exit%d' % step, list(reasons) + ['Killed-before-launch'])
-                    tracker.new_step()
-                    if r == 'Killed-before-launch':
-                        # kill() arrives after run()/restart() returned but before the task is launched: the launch
-                        # pipeline ends in HandleTaskObservableException -> _setExitReason(Killed); engine.process is
-                        # whatever restart() left behind
-                        r = 'Killed'
-                        eng._setExitReason('Killed')
+                    eng.launch_now()
+                    if launches and launches[-1] != 'task':
+                        # the submission itself failed: LaunchTask reported SubmissionFailed, there is no task to wait for
+                        r = 'SubmissionFailed'
+                        got = eng.task_exits()
+                        ctx.check(got == 'SubmissionFailed', 'a launch that raises is reported as SubmissionFailed', (launches, got))
+                        ctx.witness('submission_failed_at_launch')
                     else:
                         # the launched task (stored by the real LaunchTask stage) exits: Wait, FinalisePerformanceInfo,
                         # HandleTaskExit of the real pipeline
+                        r = ctx.choice('exit%d' % step, list(reasons))
                         eng.task_exits(r)
                 ctx.check(eng.exitReason() == r, 'the engine reports the exit reason of its last execution', (hist, r, eng.exitReason()))
                 before = eng.run_calls
@@ -594,7 +607,7 @@ def main(tier, seed, only=None):
     rep.explanation = ('bounded symbolic execution (symx/z3): exit reason of every execution, restart policy options, '
                        'hook outcomes and stability answers are solver variables; DFS over all feasible decision '
                        'vectors; every path re-validated natively')
-    rep.required_witnesses = ['step_restarted', 'step_refused', 'restarted', 'refused', 'budget_reached', 'five_resubmissions', 'submission_failed_at_launch', 'rep_restarted',
+    rep.required_witnesses = ['step_restarted', 'step_refused', 'restarted', 'refused', 'budget_reached', 'five_resubmissions', 'submission_failed_at_launch', 'killed_in_the_launch_window', 'rep_restarted',
                               'rep_refused']
     SF = ['SubmissionFailed', 'Success', 'ResourceExhausted', 'Killed']
     params = [{'kind': 'step', 'name': 'step'},
